@@ -92,6 +92,19 @@ M = {
     "with-opset-resets-nothing-but-builder-reads-name": (["C12"], [("src/spox/_build.py",
         "        if not graph.requested_results:",
         "        if not graph.requested_results or graph._name == '?':")]),
+    "inline-writes-type-on-untyped-argument": (["C12"], [("src/spox/_inline.py",
+        "        for i, var in zip(self.graph.input, self.inputs.inputs):\n            if var.type is not None and not (",
+        "        for i, var in zip(self.graph.input, self.inputs.inputs):\n            if var.type is None:\n                var.type = Type._from_onnx(i.type)\n            if var.type is not None and not (")]),
+    "inline-memoises-prepared-model-by-id": (["C12"], [("src/spox/_public.py",
+        "    model = _copy_model(model)\n",
+        "    _orig = model\n    _hit = _PREPARED.get(id(_orig))\n    if _hit is not None and _hit[0] is _orig and _hit[1] == _orig.ByteSize():\n        model = _copy_model(_hit[2])\n    else:\n        model = _copy_model(_orig)\n        _PREPARED[id(_orig)] = (_orig, _orig.ByteSize(), _copy_model(_orig))\n"),
+        ("src/spox/_public.py", "def _copy_model(", "_PREPARED: Dict = {}\n\n\ndef _copy_model(")]),
+    "empty-name-rejected-and-setup-before-try": (["C12", "C03"], [("src/spox/_var.py",
+        "        self._name = name\n",
+        "        if name == \"\":\n            raise ValueError(\"Var names must not be empty.\")\n        self._name = name\n"),
+        ("src/spox/_public.py",
+        "    try:\n        for name, arg in kwargs.items():\n            # Only the first occurrence holds the original name (a Var may be passed under several keys)\n            pre.setdefault(arg, arg._name)\n            arg._rename(name)\n        yield\n",
+        "    for name, arg in kwargs.items():\n        # Only the first occurrence holds the original name (a Var may be passed under several keys)\n        pre.setdefault(arg, arg._name)\n        arg._rename(name)\n    try:\n        yield\n")]),
     "renames-restore-to-none": (["C12"], [("src/spox/_public.py",
         "        for arg, name in pre.items():\n            arg._rename(name)",
         "        for arg, name in pre.items():\n            arg._rename(None)")]),
